@@ -426,6 +426,18 @@ def run(ctx):
             if got_s != want_s:
                 viol("meaning|edited-topology", "select(%r) on a topology edited in place (%s) gives %s, its documented meaning is %s" % (s2, "; ".join(stages), got_s, want_s), dict(expr=s2, stages=stages))
                 break
+    # ---- atoms that are not numbered in chain/residue order (an atom appended to an earlier residue): still "in increasing order"; and
+    # an empty selection is an integer index array like any other
+    top3 = build_top(md)
+    top3.add_atom("ZZ", md.element.carbon, next(iter(top3.residues)))
+    for s3, pred in (("all", lambda a: True), ("name ZZ or index 0 1", lambda a: a.name == "ZZ" or a.index in (0, 1)), ("not protein", lambda a: not a.residue.is_protein), ("none", lambda a: False)):
+        got = top3.select(s3)
+        want = sorted(a.index for a in top3.atoms if pred(a))
+        ctx.case(None, ("out-of-order", s3)); ctx.count("selections on a topology whose atoms are not in residue order")
+        if got.tolist() != want:
+            viol("unsorted|atoms-out-of-residue-order", "select(%r) on a topology with an atom appended to an earlier residue gives %s, expected %s" % (s3, got.tolist()[:12], want[:12]), dict(expr=s3))
+        if got.dtype.kind not in "iu":
+            viol("dtype|empty-selection", "select(%r) returns an array of dtype %s, not an integer index array" % (s3, got.dtype), dict(expr=s3))
     for key, (what, rp) in seen.items():
         ctx.violation(key, what, rp)
 
